@@ -120,11 +120,41 @@ func (p *Prog) checkSymmetricBody(r *Report, f *Func, pj *projector, recvType st
 		r.Check(pa == pb, construct, p.Pos(at.Pos()), what+" pairs the same projection of both candidates",
 			fmt.Sprintf("%s compares %s of one candidate with %s of the other: for inputs where the two projections differ the relation is not reflexive/symmetric", what, orDash(pa), orDash(pb)))
 	}
+	// nil tests: what is asked of one candidate's projection is asked of the other's
+	nilTests := map[string]map[string]int{"c": {}, "o": {}}
+	var firstNil ast.Node
+	defer func() {
+		bad := ""
+		for _, side := range []string{"c", "o"} {
+			other := "o"
+			if side == "o" {
+				other = "c"
+			}
+			for proj, n := range nilTests[side] {
+				if nilTests[other][proj] != n {
+					bad = orDash(proj)
+				}
+			}
+		}
+		if firstNil != nil {
+			r.Check(bad == "", f.Name+": nil tests are symmetric", p.Pos(firstNil.Pos()), "each projection is tested against nil on both candidates", "the projection "+bad+" is tested against nil on one candidate only: for a pair in which exactly one side lacks it, a.Equal(b) and b.Equal(a) differ")
+		}
+	}()
 	walkBody(f, func(n ast.Node) bool {
 		switch x := n.(type) {
 		case *ast.BinaryExpr:
 			if x.Op == token.EQL || x.Op == token.NEQ {
 				pair("comparison", x, x.X, x.Y)
+				for _, ab := range [][2]ast.Expr{{x.X, x.Y}, {x.Y, x.X}} {
+					if p.isNilExpr(ab[1]) {
+						if side, proj := pj.proj(ab[0]); side != "" && proj != "" {
+							nilTests[side][proj]++
+							if firstNil == nil {
+								firstNil = x
+							}
+						}
+					}
+				}
 			}
 		case *ast.CallExpr:
 			sel, isSel := unparen(x.Fun).(*ast.SelectorExpr)
@@ -964,6 +994,67 @@ func checkC16(p *Prog, r *Report) {
 			return true
 		})
 		r.Check(okAll && n > 0, "readCandidateStringToken returns a slice of the input", p.Pos(f.Body.Pos()), "raw[a:b]", "the tokenizer re-renders the token")
+	}
+	// ---- R16.8 a decoder overwrites its destination --------------------------------------------------------
+	r.Rule("R16.8", "Every attribute decoder (GetFrom / GetFromAs / GetFromWithType on a pointer receiver) stores the decoded value through its receiver on every path that reports success: decoding into a variable that already holds a value never leaves the old value in place (decode(encode(x)) == x whatever the destination held).", 8)
+	for _, f := range p.AllFuncs {
+		if f.Decl == nil || f.Decl.Recv == nil || f.Pkg != p.Ice || f.Body == nil || !strings.HasPrefix(f.Decl.Name.Name, "GetFrom") {
+			continue
+		}
+		if len(f.Decl.Recv.List) != 1 || len(f.Decl.Recv.List[0].Names) != 1 {
+			continue
+		}
+		if _, isPtr := f.Decl.Recv.List[0].Type.(*ast.StarExpr); !isPtr {
+			continue
+		}
+		f := f
+		recv := p.ObjOf(f.Decl.Recv.List[0].Names[0])
+		mentionsRecv := func(e ast.Expr) bool {
+			found := false
+			ast.Inspect(e, func(x ast.Node) bool {
+				if id, ok := x.(*ast.Ident); ok && p.ObjOf(id) == recv {
+					found = true
+				}
+				return !found
+			})
+			return found
+		}
+		stores := func(n ast.Node) bool {
+			switch x := n.(type) {
+			case *ast.AssignStmt:
+				for _, l := range x.Lhs {
+					l = unparen(l)
+					if _, isID := l.(*ast.Ident); !isID && mentionsRecv(l) {
+						return true // *a = ..., a.f = ..., a.f[i] = ...
+					}
+				}
+			}
+			// delegation: another decoder invoked on (a part of) the receiver
+			return p.nodeHasCall(n, func(c *ast.CallExpr) bool {
+				sel, ok := unparen(c.Fun).(*ast.SelectorExpr)
+				return ok && strings.HasPrefix(sel.Sel.Name, "GetFrom") && mentionsRecv(sel.X)
+			})
+		}
+		ok, nRet := true, 0
+		walkBody(f, func(x ast.Node) bool {
+			rs, isR := x.(*ast.ReturnStmt)
+			if !isR || len(rs.Results) != 1 {
+				return true
+			}
+			if stores(rs) {
+				nRet++
+				return true // return (*T)(a).GetFromAs(...)
+			}
+			if !p.isNilExpr(rs.Results[0]) {
+				return true // an error return: the destination is unspecified
+			}
+			nRet++
+			if !p.MustPrecede(f, rs, stores) {
+				ok = false
+			}
+			return true
+		})
+		r.Check(ok && nRet > 0, "decoder "+f.Name+" stores through its receiver before reporting success", p.Pos(f.Body.Pos()), "every 'return nil' preceded by a store through the receiver", "a path returns nil without storing the decoded value: decoding (for instance an empty list) into a variable that already holds a value leaves the old value there, so decode(encode(x)) != x")
 	}
 }
 
